@@ -144,14 +144,14 @@ PROPS = {
     ),
     "C08": dict(
         level="fault_enumeration",
-        level_text="Per generated table the stdio operation trace of a clean write is recorded by an in-process interposer (fopen/fwrite/fseeko/fflush/fclose/ftruncate/remove as cfitsio's disk driver calls them). Crash points: the trace is replayed into a fresh file and the disk reader is run after EVERY operation and at byte granularity inside every write (FITS-block and stdio-chunk boundaries +-1, drawn offsets): the file must be rejected or load equal. Fault sequences: the write is repeated failing exactly the k-th operation for every k (ENOSPC/EIO/EFBIG/EDQUOT, zero or short writes, once or persistently) and under RLIMIT_FSIZE in a forked child (failure surfaces at flush/close): success may be reported only if the file reads back equal, and whatever is left must be rejected or load equal; every open is matched by exactly one close. Enumeration is exhaustive per table at operation granularity; tables are generated (1..5 dims, 1..300 blocks, 0..20 aux keys, C++ and C writers).",
+        level_text="Per generated table the stdio operation trace of a clean write is recorded by an in-process interposer (fopen/fwrite/fseeko/fflush/fclose/ftruncate/remove as cfitsio's disk driver calls them). Crash points: the trace is replayed into a fresh file and the disk reader is run after EVERY operation and at byte granularity inside every write (FITS-block and stdio-chunk boundaries +-1, drawn offsets): the file must be rejected or load equal. Fault sequences: the write is repeated failing exactly the k-th operation for every k (ENOSPC/EIO/EFBIG/EDQUOT, zero or short writes, once or persistently) and under RLIMIT_FSIZE in a forked child (failure surfaces at flush/close): success may be reported only if the file reads back equal, and whatever is left must be rejected or load equal; every open is matched by exactly one close. Enumeration is exhaustive per table at operation granularity; tables are generated (1..5 dims, 1..300 blocks, 0..20 aux keys, C++ and C writers). A second sub-property injects the faults one level lower: the write is done by a helper process under strace's syscall fault injection and the N-th write(2) fails (ENOSPC/EIO/EDQUOT/EFBIG, once or from then on) for every N, which reaches the write(2) calls that stdio issues on its own when fseek or fclose drains its buffer; same oracle. It is skipped with a note when strace cannot trace in the environment.",
         level_note="Any byte prefix of the write stream in issue order is a superset of the states a real crash can leave (stdio flushes its single buffer sequentially and before any seek). The Python binding calls the same write_fits and is not built in this image. Built without sanitizers because the executable itself defines the stdio symbols.",
-        technique="fault injection and crash-point enumeration driven by property-based table generation (rapidcheck + stdio interposition + RLIMIT_FSIZE)",
-        units=[U("c08_write", "c08_write.cpp", variant="plain", extra_srcs=["c08_interpose.cpp"], quick=160, thorough=12000, names=["write_faults"], leaks=False, no_isolate_rerun=True)],
+        technique="fault injection and crash-point enumeration driven by property-based table generation (rapidcheck + stdio interposition + RLIMIT_FSIZE + strace syscall fault injection)",
+        units=[U("c08_write", "c08_write.cpp", variant="plain", extra_srcs=["c08_interpose.cpp"], quick=320, thorough=16000, names=["write_faults", "kernel_write_faults"], leaks=False, no_isolate_rerun=True)],
         rule="a case = one table; evaluations counts tables, classes count the crash cuts and injected faults. Non-trivial: a crash cut that leaves a non-empty proper prefix of the "
              "file, an injected fault that was actually reached, or a size limit below the file size; distinct = hash(table, kind, operation index / byte offset / limit).",
         essential={"write_faults": {"cut:operation_boundary": 10.0, "cut:byte_granularity": 10.0, "fault:write": 3.0, "fault:close": 0.5, "fault:flush": 0.5, "fault:open": 0.5,
-                                    "rlimit:writer_reported_failure": 2.0, "size:large(>60 blocks)": 0.02}},
+                                    "rlimit:writer_reported_failure": 2.0, "size:large(>60 blocks)": 0.02, "aux>=17(header_overflows_a_block)": 0.1}},
         assumptions=["cfitsio reaches the file only through the interposed stdio calls (verified: the recorded trace reproduces the file byte for byte, checked by the equal-load of the final state)"],
     ),
     "C12": dict(
